@@ -320,6 +320,52 @@ def common_summaries():
         w = INT_TYPES[ty][0]
         return [(st, Int((1 << w) - 1, w, False))]
 
+
+    # ---------------- panics
+    @reg(r'^(std::rt::)?begin_panic::<|^(core::panicking::)?panic(_fmt|_display|_str|_explicit)?(::<.*>)?$|^unreachable_display::<|^core::panicking::assert_failed::<|^(core::panicking::)?panic_const|^expect_failed$|^unwrap_failed$|^(core::panicking::)?panic_bounds_check$')
+    def do_panic(ex, st, fn, argv):
+        msg = ''
+        for a in argv:
+            if isinstance(a, Str):
+                msg = str(a.s)
+            elif isinstance(a, Ref):
+                try:
+                    t = deref(ex, st, a)
+                    if isinstance(t, Str):
+                        msg = str(t.s)
+                except Unsupported:
+                    pass
+        return [(st, Panic(f"{fn.split('::<')[0]}: {msg}"))]
+
+    @reg(r'^(std::option::)?Option::<.*>::(unwrap|expect)$|^(std::result::)?Result::<.*>::(unwrap|expect)$')
+    def opt_unwrap(ex, st, fn, argv):
+        o = as_enum(ex, st, argv[0])
+        is_opt = 'Option' in fn.split('::<')[0]
+        okidx = 1 if is_opt else 0
+        outs = []
+        for (s, c, ok) in ex.fork_on(st, o.disc_bv() == okidx, o):
+            if ok:
+                pay = c.payloads.get(okidx)
+                if pay is None or 0 not in pay.fields:
+                    raise Unsupported('unwrap of enum with unmaterialised payload')
+                outs.append((s, pay.fields[0]))
+            else:
+                outs.append((s, Panic(f"called `{fn.split('::<')[0]}::{fn.split('::')[-1]}` on a None/Err value")))
+        return outs
+
+    @reg(r'^(std::option::)?Option::<.*>::unwrap_or$')
+    def opt_unwrap_or(ex, st, fn, argv):
+        o = as_enum(ex, st, argv[0])
+        outs = []
+        for (s, c, ok) in ex.fork_on(st, o.disc_bv() == 1, (o, argv[1])):
+            outs.append((s, c[0].payloads[1].fields[0] if ok else c[1]))
+        return outs
+
+    @reg(r'^(std::option::)?Option::<.*>::(is_some|is_none)$')
+    def opt_is(ex, st, fn, argv):
+        o = as_enum(ex, st, deref(ex, st, argv[0]))
+        return [(st, Bool(o.disc_bv() == (1 if fn.endswith('is_some') else 0)))]
+
     # ---------------- formatting / logging (no semantic content)
     @reg(r'^Arguments::<.*>::(new|from_str)|^core::fmt::rt::Argument::<.*>::new_|^log::__private_api::(loc|log)|^Arguments::<\'_>::')
     def fmt_noop(ex, st, fn, argv):
